@@ -16,7 +16,8 @@ RULE = (
     '(a) zone x instant: zones from pytz.all_timezones (quick: sampled; '
     'thorough: every zone, 40 instants each), UTC instants at whole seconds '
     '1880-2100 with over-sampling of +-2 h around the zone\'s own transitions, '
-    'the local-mean-time era and 30/45-minute zones; the local text is by '
+    'the local-mean-time era and 30/45-minute zones, with the process itself '
+    'running in UTC or in another zone (TZ); the local text is by '
     'construction the rendering of the chosen instant, so it exists. Oracle: '
     'round trip - the epoch produced by generate_timestamped_rows, rendered '
     'back in the zone, gives the original text (either fold accepted); for '
@@ -76,7 +77,12 @@ def instant_cases(draw):
     more = draw(st.lists(st.integers(-86400, 86400), max_size=4))
     return {'tz': name, 'epoch': e,
             'more': sorted(max(EPOCH_LO, min(EPOCH_HI, e + d))
-                           for d in more)}
+                           for d in more),
+            # the zone of the machine running the command is not the zone
+            # declared for the data
+            'process_tz': draw(st.sampled_from(
+                [None, None, 'Asia/Tokyo', 'America/New_York',
+                 'Australia/Adelaide']))}
 
 
 def fixed_offset_seconds(name):
@@ -96,6 +102,27 @@ def naive_seconds(text):
 
 
 def check_instant(case):
+    import os
+    import time
+    process_tz = case.get('process_tz')
+    if not process_tz:
+        return _check_instant(case)
+    saved = os.environ.get('TZ')
+    os.environ['TZ'] = process_tz
+    time.tzset()
+    try:
+        labels = _check_instant(case)
+    finally:
+        if saved is None:
+            os.environ.pop('TZ', None)
+        else:
+            os.environ['TZ'] = saved
+        time.tzset()
+    labels.add('process-zone-not-utc')
+    return labels
+
+
+def _check_instant(case):
     load_mod = tree.mod('load')
     tz = pytz.timezone(case['tz'])
     e = case['epoch']
